@@ -47,6 +47,9 @@ type MitigationParams struct {
 	// opens. What is left of the closed session works from the cluster map of ITS time and must not feed the
 	// thresholds of the new one
 	StaleSession bool `json:"stale_session"`
+	// DiskSnapshot: the snapshot markers announce disk snapshots (backfill) instead of memory snapshots: "on disk"
+	// is a statement about the active copy only, the gate applies all the same
+	DiskSnapshot bool `json:"disk_snapshot"`
 }
 
 // persistence feeds of one copy (uA = the branch the stream was opened on, uB = another branch)
@@ -104,6 +107,8 @@ func init() {
 				{Scenario: "c07_gate", Params: mustJSON(MitigationParams{Replicas: 1, SeqAdv: true}), Bound: b - 1, Shards: 8, Note: "a seqno-advanced event behind two documents: absorbed only once covered"},
 				{Scenario: "c07_gate", Params: mustJSON(MitigationParams{Replicas: 1, EpochAssign: true, StaleSession: true}), Bound: 0, Shards: 8, Note: "the session that follows a Rebalance() which closed the first one while its rollback mitigation was still loading fail-over logs; a copy becomes listed afterwards: what is left of the closed session knows the old map only and must stay silent"},
 				{Scenario: "c07_gate", Params: mustJSON(MitigationParams{Replicas: 2, EpochAssign: true, Grow: true, StaleSession: true}), Bound: 0, Shards: 16, Note: "the same with an ADDITIONAL copy listed afterwards"},
+				{Scenario: "c07_gate", Params: mustJSON(MitigationParams{Replicas: 1, DiskSnapshot: true}), Bound: 0, Shards: 8, Note: "the events arrive in a disk (backfill) snapshot: they wait at the gate like any other"},
+				{Scenario: "c07_gate", Params: mustJSON(MitigationParams{Replicas: 1, DiskSnapshot: true, TransientEnd: true}), Bound: 0, Shards: 8, Note: "disk snapshots, with a transient end and a re-open"},
 				{Scenario: "c07_rebalance", Params: mustJSON(struct{}{}), Bound: 0, Note: "the session after a real Rebalance() with a slow re-open and copies that keep reporting the same figures"},
 				{Scenario: "c07_gate", Params: mustJSON(MitigationParams{Replicas: 1, Stall: true}), Bound: 0, Shards: 8, Note: "the DCP thread stalls for two observe intervals at every scheduling point (lost wake-up between the gate's check and its wait)"},
 			}
@@ -213,6 +218,13 @@ func c07Pure(tier string) *PureResult {
 
 func gateMain(p MitigationParams) {
 	resetGlobals()
+	marker := func(a, b uint64) gocbcore.SimPacket {
+		m := marker(a, b)
+		if p.DiskSnapshot {
+			m.Flags = 2 // a snapshot the server reads from disk (backfill): start-up with a backlog, a re-open
+		}
+		return m
+	}
 	nodes := p.Replicas + 1
 	o := EnvOpts{Vbs: 1, Nodes: nodes, Replicas: p.Replicas, CheckpointType: "manual", Mitigation: true, WrapMeta: true}
 	c := NewCluster(&o)
